@@ -185,6 +185,42 @@ impl<C> Encode<C> for EncOps {
     }
 }
 
+/// A value with an EMPTY encoding: `Encode` writes nothing, `Decode` reads nothing.  Framed, it is `00 00 00 00`: a complete,
+/// zero-length frame that carries a value like any other.
+#[derive(Debug, Clone, PartialEq)]
+pub struct Nothing;
+
+impl<C> Encode<C> for Nothing {
+    fn encode<W: Write>(&self, _: &mut Encoder<W>, _: &mut C) -> Result<(), encode::Error<W::Error>> {
+        Ok(())
+    }
+}
+
+impl<'b, C> Decode<'b, C> for Nothing {
+    fn decode(_: &mut minicbor::Decoder<'b>, _: &mut C) -> Result<Self, minicbor::decode::Error> {
+        Ok(Nothing)
+    }
+}
+
+/// A value whose encoding is NOT idempotent: every `encode` call on the same instance hands out the next ticket number (a
+/// sequence counter, a timestamp, an interning table -- what `encode`'s `&mut` context and interior mutability exist for).
+/// A fresh instance starts at `base`, so one `encode` per write gives the reference encoding; a transport that encodes a
+/// value twice (measure, then encode) announces one number and sends another -- of another width when `base` is 23, 255, ...
+#[derive(Debug)]
+pub struct Ticket {
+    pub base: u64,
+    pub taken: std::cell::Cell<u64>,
+}
+
+impl<C> Encode<C> for Ticket {
+    fn encode<W: Write>(&self, e: &mut Encoder<W>, _: &mut C) -> Result<(), encode::Error<W::Error>> {
+        let k = self.taken.get();
+        self.taken.set(k + 1);
+        e.u64(self.base + k)?;
+        Ok(())
+    }
+}
+
 /// A value whose `Encode` impl writes `partial` bytes and then fails with a message error.
 #[derive(Debug, Clone, PartialEq)]
 pub struct FailEncode {
@@ -221,7 +257,7 @@ tys!(
     VecVecU8, BTreeMapU32Str, Duration, IpAddr, SocketAddr, IntTy, TaggedU32, Tokens, Point, MapRec, Gappy, Color,
     Shape, Wrapper, Borrowed, Tree, TaggedRec, EncOps, BoxStr, CowStr, RangeU32, BoundI16, Wrapping, CString, Path, Empty,
     ArrIterExact, ArrIterFilter, MapIterExact, MapIterFilter, BTreeSetU16, VecDequeStr, LinkedListU8, BinaryHeapI32, HashMapFixed,
-    HashSetFixed, SystemTime, CellU16, RefCellStr, NonZeroU32, AtomicI64, TagTy, SocketAddrV6, RangeInclusiveI8, Phantom, Slice, SelfDesc, Embedded,
+    HashSetFixed, SystemTime, CellU16, RefCellStr, NonZeroU32, AtomicI64, TagTy, SocketAddrV6, RangeInclusiveI8, Phantom, Slice, SelfDesc, Embedded, Nothing, Ticket,
 );
 
 #[derive(Clone, Debug, PartialEq, Eq)]
@@ -768,6 +804,12 @@ pub fn with_value<V: EncVisitor>(spec: &ValSpec, vis: V) -> V::Out {
         }
         // a value whose Encode impl writes nothing at all (zero-length encoding)
         Ty::Empty => vis.visit(&EncOps(Vec::new())),
+        Ty::Nothing => vis.visit(&Nothing),
+        Ty::Ticket => {
+            // bases right below a head-width boundary, so that "the next number" is one byte longer
+            let base = *r.pick(&[23u64, 23, 255, 65_535, 0xffff_ffff, 5]) + if n % 4 == 3 { 1 } else { 0 };
+            vis.visit(&Ticket { base, taken: std::cell::Cell::new(0) })
+        }
     }
 }
 
@@ -814,12 +856,13 @@ family!(FGappy, Gappy, Gappy);
 family!(FShape, Shape, Shape);
 family!(FUnit, Unit, ());
 family!(FSelfDesc, SelfDesc, Tagged<55799, &'a str>);
+family!(FNothing, Nothing, Nothing);
 family!(FEmbedded, Embedded, Tagged<24, &'a ByteSlice>);
 
 /// Types that have a decode family; the I/O workloads draw from these.
 pub const IO_TYS: &[Ty] = &[
     Ty::U64, Ty::Str, Ty::String, Ty::Bytes, Ty::ByteSliceRef, Ty::Tuple3, Ty::Borrowed, Ty::Tree, Ty::VecU32, Ty::OptStr,
-    Ty::MapRec, Ty::Gappy, Ty::Shape, Ty::Unit, Ty::SelfDesc, Ty::Embedded,
+    Ty::MapRec, Ty::Gappy, Ty::Shape, Ty::Unit, Ty::SelfDesc, Ty::Embedded, Ty::Nothing,
 ];
 
 pub trait FamVisitor {
@@ -844,6 +887,7 @@ pub fn with_family<V: FamVisitor>(ty: Ty, vis: V) -> V::Out {
         Ty::Shape => vis.visit::<FShape>(),
         Ty::Unit => vis.visit::<FUnit>(),
         Ty::SelfDesc => vis.visit::<FSelfDesc>(),
+        Ty::Nothing => vis.visit::<FNothing>(),
         Ty::Embedded => vis.visit::<FEmbedded>(),
         other => panic!("harness: type {} has no decode family", other.name()),
     }
